@@ -97,16 +97,17 @@ template <int S, int D> struct SplineWorld {
     if (ps.empty()) {
       auto mk = [&](int N, double t0, uint64_t seed, double tscale) { Problem<D> p; p.N = N; p.t0 = t0; for (int i = 0; i < N; ++i) p.T.push_back(tscale * (1.0 + 0.5 * (i % 2))); set_generic_data(p, seed); return p; };
       ps.push_back(mk(2, 0.0, 11, 1.0)); ps.push_back(mk(2, 1.5, 12, 0.5)); ps.push_back(mk(4, -2.0, 13, 1.0)); ps.push_back(mk(1, 0.25, 14, 2.0));
+      ps.push_back(mk(2, 125.5, 15, 1.0));   // p4: the SAME durations as p0, another start time and other data
     }
     return ps;
   }
   std::unique_ptr<Sp> S1, S2; PP T; int m1 = -1, m2 = -1, mt = -1;
   SplineWorld() : S1(new Sp()), S2(new Sp()) {}
-  int nops() const { return 17; }
+  int nops() const { return 19; }
   bool enabled(int op) const { if (op == 16) return m1 >= 0; return true; }
   std::string opname(int op) const {
     static const char *n[] = {"S1.update(dur,p0)", "S1.update(dur,p1 same N)", "S1.update(dur,p2 N=4)", "S1.update(dur,p3 N=1)", "S1.update(tp,p0)", "S1.update(tp,p1)", "S1.update(tp,p2)", "S1.update(tp,p3)",
-                              "evaluate S1.getTrajectory()", "T = S1.getTrajectoryCopy()", "S2 = S1", "S2 = Sp(S1) copy-ctor", "S2.update(dur,p1)", "evaluate T", "evaluate S2.getTrajectory()", "S1 = S1", "S1.propagateGrad(dense)"};
+                              "evaluate S1.getTrajectory()", "T = S1.getTrajectoryCopy()", "S2 = S1", "S2 = Sp(S1) copy-ctor", "S2.update(dur,p1)", "evaluate T", "evaluate S2.getTrajectory()", "S1 = S1", "S1.propagateGrad(dense)", "S1.update(dur,p4 same durations as p0, other start)", "S1.update(tp,p4)"};
     return n[op];
   }
   static void touch(const PP &t) { for (int k = 0; k < 3; ++k) (void)t.evaluate(t.getStartTime() + 0.3 * t.getDuration(), k); }
@@ -122,6 +123,8 @@ template <int S, int D> struct SplineWorld {
     else if (op == 13) touch(T);
     else if (op == 14) touch(S2->getTrajectory());
     else if (op == 15) { Sp &r = *S1; *S1 = r; }
+    else if (op == 17) { const auto &p = ps[4]; S1->update(p.T, p.P, p.t0, p.bc); m1 = 4; }
+    else if (op == 18) { const auto &p = ps[4]; S1->update(p.timepoints(), p.P, p.bc); m1 = 4; }
     else if (op == 16) { int N = ps[m1].N; Mat g = Mat::Constant(M * N, D, 0.5); Eigen::VectorXd gt = Eigen::VectorXd::Constant(N, 0.25); (void)S1->propagateGrad(g, gt); }
   }
   std::string canon() const { Canon c; canon_add(c, *S1); canon_add(c, *S2); canon_add(c, T); c.i(m1); c.i(m2); c.i(mt); return c.s; }
